@@ -201,7 +201,7 @@ THint == /\ Is("hint") /\ st = "open"
 THintCmp == /\ Is("hintcmp") /\ st = "open"
             /\ LET e == E IN
                Must("hintcmp", /\ e.opena = "ok" /\ e.openb = "ok" /\ e.closea = "ok"
-                               /\ e.vala = e.valb /\ e.idxa = e.idxb
+                               /\ e.vala = e.valb /\ e.idxa = e.idxb /\ e.livea = e.liveb
                                /\ \A k \in K : e.vala[k] = model[k])
             /\ l' = l + 1 /\ UNCHANGED <<n, st, model, batch, rec, maxlim, mg, lastact, hist, orig, its, nops>>
 
